@@ -21,7 +21,7 @@ theorem tail_spec (c : Choice) (v : Variant) (rN r0 : Rec) (d1 : Disk) (h1 : d1.
     ∧ ((crashAt (dataEffs c ++ restartEffs v rN) d1 j h).restart = .complete r0
         ∨ ((crashAt (dataEffs c ++ restartEffs v rN) d1 j h).restart = .complete rN
             ∧ (dataEffs c ++ restartEffs v rN).length ≤ j)
-        ∨ (v = .asIs ∧ j = (dataEffs c).length + 1
+        ∨ ((v = .asIs ∧ j = (dataEffs c).length + 1 ∨ v = .renamedOpen ∧ j = (dataEffs c).length + 2)
             ∧ ((crashAt (dataEffs c ++ restartEffs v rN) d1 j h).restart = .empty
                ∨ (crashAt (dataEffs c ++ restartEffs v rN) d1 j h).restart = .part)))
     ∧ ((dataEffs c ++ restartEffs v rN).length ≤ j →
@@ -30,7 +30,7 @@ theorem tail_spec (c : Choice) (v : Variant) (rN r0 : Rec) (d1 : Disk) (h1 : d1.
             = appendRows d1.data (c.accs.map (fun a => a.old.pn)))
     ∧ ((c.accs.isEmpty = true ∨ j = 0 ∨ (j = 1 ∧ (h = false ∨ (c.halfTorn = false ∧ c.halfRows = 0)))) →
         (crashAt (dataEffs c ++ restartEffs v rN) d1 j h).data = d1.data)
-    ∧ (v = .asIs → j = (dataEffs c).length + 1 →
+    ∧ ((v = .asIs ∧ j = (dataEffs c).length + 1 ∨ v = .renamedOpen ∧ j = (dataEffs c).length + 2) →
         ((crashAt (dataEffs c ++ restartEffs v rN) d1 j h).restart = .empty
           ∨ (crashAt (dataEffs c ++ restartEffs v rN) d1 j h).restart = .part))
     ∧ ((crashAt (dataEffs c ++ restartEffs v rN) d1 j h).data = d1.data
